@@ -161,7 +161,7 @@ func (f *SexpField) FieldWidths() []int {
 	hash := (*SexpHash)(f)
 	wide := []int{}
 	for _, key := range hash.KeyOrder {
-		val, err := hash.HashGet(nil, key)
+		val, err := hash.storedValue(key)
 		str := ""
 		if err == nil {
 			switch s := key.(type) {
@@ -175,7 +175,9 @@ func (f *SexpField) FieldWidths() []int {
 			wide = append(wide, len(str))
 			wide = append(wide, len(val.SexpString(nil))+1)
 		} else {
-			panic(err)
+			// no value under this key: keep the two slots so that
+			// AlignString finds the widths of the other keys.
+			wide = append(wide, 0, 0)
 		}
 	}
 	return wide
@@ -186,7 +188,7 @@ func (f *SexpField) AlignString(pad []int) string {
 	str := " (" + hash.TypeName + " "
 	spc := " "
 	for i, key := range hash.KeyOrder {
-		val, err := hash.HashGet(nil, key)
+		val, err := hash.storedValue(key)
 		r := ""
 		if err == nil {
 			switch s := key.(type) {
@@ -210,8 +212,6 @@ func (f *SexpField) AlignString(pad []int) string {
 				spc = ""
 			}
 			r = leftpad + r + spc + vs + rightpad
-		} else {
-			panic(err)
 		}
 		str += r
 	}
@@ -235,7 +235,7 @@ func (f *SexpField) SexpString(ps *PrintState) string {
 	str := " (" + hash.TypeName + " "
 
 	for i, key := range hash.KeyOrder {
-		val, err := hash.HashGet(nil, key)
+		val, err := hash.storedValue(key)
 		if err == nil {
 			switch s := key.(type) {
 			case *SexpStr:
@@ -250,8 +250,6 @@ func (f *SexpField) SexpString(ps *PrintState) string {
 			} else {
 				str += val.SexpString(ps) + "    "
 			}
-		} else {
-			panic(err)
 		}
 	}
 	if len(hash.Map) > 0 {
